@@ -120,6 +120,9 @@ def field_variants():
     add('match_undeclared_target', ['u8 k,', 'match k as b {', '    1 : Nope,', '},'], [('undeclared-packet', 2, 2)])
     add('match_dup_key', ['u8 k,', 'match k as b {', '    1 : Other,', '    1 : Third,', '},'], [('dup-key', 3, 3)])
     add('match_dup_key_list', ['u8 k,', 'match k as b {', '    [1, 2] : Other,', '    2 : Third,', '},'], [('dup-key', 3, 3)])
+    add('match_dup_in_list', ['u8 k,', 'match k as b {', '    [1, 2, 1] : Other,', '    3 : Third,', '},'], [('dup-key', 2, 2)])
+    add('match_dup_in_strlist', ['string k,', 'match k as b {', '    ["a", "b"] : Other,', '    ["c", "c"] : Third,', '},'], [('dup-key', 3, 3)])
+    add('match_dup_in_list_last', ['u8 k,', 'match k as b {', '    1 : Other,', '    [7, 8, 9, 8] : Third,', '},'], [('dup-key', 3, 3)])
     add('match_key_after', ['match k as b {', '    1 : Other,', '},', 'u8 k,'])
     add('match_two', ['u8 k,', 'u8 j,', 'match k as b {', '    1 : Other,', '},', 'match j as c {', '    1 : Third,', '},'])
     add('match_self', ['u8 k,', 'match k as b {', '    1 : Root,', '},'], wf=False)
@@ -211,6 +214,10 @@ def family(tier='quick'):
     out.append(T('p:inline_dup_nested', 'root packet A {\n    Item {\n        u8 k,\n        Item {\n            B b,\n        },\n    },\n}\n\npacket B {\n    u8 y,\n}\n', wellformed=False))
     out.append(T('p:inline_like_packet', 'root packet A {\n    u8 t,\n    B {\n        C c,\n    },\n}\n\npacket B {\n    u8 y,\n}\n\npacket C {\n    u8 z,\n}\n', wellformed=False))
     out.append(T('p:inline_dup_match', 'root packet A {\n    u8 t,\n    Item {\n        u8 k,\n    },\n}\n\npacket C {\n    Item {\n        u8 q,\n        match q as body {\n            1 : B,\n            2 : Nope,\n        },\n    },\n}\n\npacket B {\n    u8 y,\n}\n', [('undeclared-packet', 13, 13)]))
+    deep = 'root packet Root {\n    u8 a,\n' + ''.join('    ' * (i + 1) + 'L%d {\n' % i for i in range(30)) + '    ' * 31 + 'u8 x,\n' + ''.join('    ' * (30 - i) + '},\n' for i in range(30)) + '}\n'
+    out.append(T('p:deep_inline_30', deep, note='thirty inline objects nested in one another: compile time stays proportional to the text'))
+    out.append(T('p:special_strings', 'options {\n    GoPackage = "a{{b";\n    JavaPackage = "c%d";\n}\n\nroot packet Root {\n    u8 a `doc {{ .X }} and %s and {{`,\n    u32 cs @calculatedFrom("CRC{{32"),\n    string s `}} {{end}}`,\n}\n', wellformed=False))
+    out.append(T('p:special_strings2', 'root packet Root {\n    u8 k `{{range}}`,\n    match k as b {\n        1 : Other,\n    },\n    @calculatedFrom("%d{{template \\"x\\"}}")\n    u16 c2,\n}\n\n' + AUX, wellformed=False))
     out.append(T('p:no_root', 'packet A {\n    u8 x,\n}\n\npacket B {\n    A a,\n}\n', wellformed=False))
     out.append(T('p:mutual_rec', 'root packet A {\n    B b,\n}\n\npacket B {\n    A a,\n}\n', wellformed=False))
     out.append(T('p:snake_collide', 'root packet Root {\n    MsgA a,\n    Msg_a b,\n}\n\npacket MsgA {\n    u8 x,\n}\n\npacket Msg_a {\n    u16 y,\n}\n', wellformed=False))
